@@ -24,7 +24,7 @@ theorem ok_nochange {op : Op} {out : Out} {st' : St} (hinv : Inv st g)
     (hshape := Or.inl hdb)
     (hends := by intro s0 h; cases h)
     (hrem := removed_same (by simp [obsOf, hpending]))
-    (hadd := added_same (by simp [obsOf, hpending])) (hgone := gone_none rfl)
+    (hadd := added_same (by simp [obsOf, hpending])) (hgone := gone_none rfl) (hsp := sentPending_nil hem)
     (hreq := request_nil hem)
     (hstat := hstat) (hnow := hnow) (hlast := hlast) (hstep := hstep)
     (hpend := pendInv_sub hinv rfl (fun _ _ h => by rw [hpending] at h; exact h) (fun _ _ => by rw [hheap]) hstep)
@@ -49,7 +49,7 @@ theorem ok_login (hinv : Inv st g) (l : Login) : StepOk cfg st g (.login l) := b
       (hread := rfl)
       (hshape := Or.inr (Or.inr (Or.inl ⟨l, rfl, hk, rfl, rfl, rfl⟩)))
       (hends := by intro s0 _ h; cases h)
-      (hrem := removed_same rfl) (hadd := added_same rfl) (hgone := gone_none rfl) (hreq := request_nil rfl)
+      (hrem := removed_same rfl) (hadd := added_same rfl) (hgone := gone_none rfl) (hsp := rfl) (hreq := request_nil rfl)
       (hstat := rfl) (hnow := rfl) (hlast := rfl) (hstep := rfl)
       (hpend := pendInv_sub hinv rfl (fun _ _ h => h) (fun _ _ => rfl) rfl)
   · exact ok_read (out := .rejected) hinv (by simp [step, stepCore, doLogin, hk]) (by simp [planOf, hk]) rfl rfl rfl rfl rfl
@@ -63,7 +63,7 @@ theorem ok_reset (hinv : Inv st g) (s : Subj) (i : Idp) : StepOk cfg st g (.rese
     (hread := rfl)
     (hshape := Or.inr (Or.inr (Or.inr ⟨s, i, rfl, rfl, rfl, rfl⟩)))
     (hends := by intro s0 _ h; cases h)
-    (hrem := removed_same rfl) (hadd := added_same rfl) (hgone := gone_none rfl) (hreq := request_nil rfl)
+    (hrem := removed_same rfl) (hadd := added_same rfl) (hgone := gone_none rfl) (hsp := rfl) (hreq := request_nil rfl)
     (hstat := rfl) (hnow := rfl) (hlast := rfl) (hstep := rfl)
     (hpend := pendInv_sub hinv rfl (fun _ _ h => h) (fun _ _ => rfl) rfl)
 
@@ -127,14 +127,14 @@ theorem ok_slo (hinv : Inv st g) (named current : Subj) (b : Bind) (j : Idp) :
           (hstepEq := by simp [step, stepCore, handleRequest, localLogout, hd, hc])
           (hp := hplan _) (hread := rfl) (hshape := Or.inl rfl)
           (hends := by intro s0 _ h; cases h)
-          (hrem := removed_same rfl) (hadd := added_same rfl) (hgone := gone_none rfl) (hreq := request_nil rfl)
+          (hrem := removed_same rfl) (hadd := added_same rfl) (hgone := gone_none rfl) (hsp := rfl) (hreq := request_nil rfl)
           (hstat := rfl) (hnow := rfl) (hlast := rfl) (hstep := rfl)
           (hpend := pendInv_sub hinv rfl (fun _ _ h => h) (fun _ _ => rfl) rfl)
       · exact step_assemble (st' := { st with stepNo := st.stepNo + 1 }) (out := .error .noresponse []) _ hinv
           (hstepEq := by simp [step, stepCore, handleRequest, localLogout, hd, hc])
           (hp := hplan _) (hread := rfl) (hshape := Or.inl rfl)
           (hends := by intro s0 _ h; cases h)
-          (hrem := removed_same rfl) (hadd := added_same rfl) (hgone := gone_none rfl) (hreq := request_nil rfl)
+          (hrem := removed_same rfl) (hadd := added_same rfl) (hgone := gone_none rfl) (hsp := rfl) (hreq := request_nil rfl)
           (hstat := rfl) (hnow := rfl) (hlast := rfl) (hstep := rfl)
           (hpend := pendInv_sub hinv rfl (fun _ _ h => h) (fun _ _ => rfl) rfl)
     | some db' =>
@@ -148,7 +148,7 @@ theorem ok_slo (hinv : Inv st g) (named current : Subj) (b : Bind) (j : Idp) :
           (hp := hplan _) (hread := rfl)
           (hshape := Or.inr (Or.inl ⟨named, rfl, Or.inr rfl, rfl⟩))
           (hends := by intro s0 _ h; cases h)
-          (hrem := removed_same rfl) (hadd := added_same rfl) (hgone := gone_none rfl) (hreq := request_nil rfl)
+          (hrem := removed_same rfl) (hadd := added_same rfl) (hgone := gone_none rfl) (hsp := rfl) (hreq := request_nil rfl)
           (hstat := by simp [statusOk, obsOf, hgone]) (hnow := rfl) (hlast := rfl) (hstep := rfl)
           (hpend := pendInv_sub hinv rfl (fun _ _ h => h) (fun _ _ => rfl) rfl)
       · exact step_assemble (st' := { st with db := Dict.del named st.db, stepNo := st.stepNo + 1 })
@@ -157,7 +157,7 @@ theorem ok_slo (hinv : Inv st g) (named current : Subj) (b : Bind) (j : Idp) :
           (hp := hplan _) (hread := rfl)
           (hshape := Or.inr (Or.inl ⟨named, rfl, Or.inr rfl, rfl⟩))
           (hends := by intro s0 _ h; cases h)
-          (hrem := removed_same rfl) (hadd := added_same rfl) (hgone := gone_none rfl) (hreq := request_nil rfl)
+          (hrem := removed_same rfl) (hadd := added_same rfl) (hgone := gone_none rfl) (hsp := rfl) (hreq := request_nil rfl)
           (hstat := rfl) (hnow := rfl) (hlast := rfl) (hstep := rfl)
           (hpend := pendInv_sub hinv rfl (fun _ _ h => h) (fun _ _ => rfl) rfl)
   · by_cases hc : canRespond cfg j b = true
@@ -184,7 +184,7 @@ theorem doLogout_live {s : Subj} {cell : Nat} {expire : Option Int} (h : deadlin
     ∃ ls out, doLogout cfg st s cell expire = ({ st with pending := ls.pending }, out) ∧
       LoopPost cfg st.db st.now st.stepNo s cell expire (heapGet st.heap cell)
         ⟨st.pending, heapGet st.heap cell, []⟩ ls ∧
-      (∀ x ∈ emitted out, x ∈ ls.sent) := by
+      (∀ x ∈ emitted out, x ∈ ls.sent) ∧ (∀ l, out = .sent l → l = ls.sent) := by
   have hpost := sloLoop_post cfg st.db st.now st.stepNo s cell expire (heapGet st.heap cell)
     ⟨st.pending, heapGet st.heap cell, []⟩
   unfold doLogout
@@ -194,12 +194,12 @@ theorem doLogout_live {s : Subj} {cell : Nat} {expire : Option Int} (h : deadlin
   obtain ⟨ls, err⟩ := r
   cases err with
   | some e =>
-    refine ⟨ls, .error e (soapOnly ls.sent), by simp, hpost, ?_⟩
+    refine ⟨ls, .error e (soapOnly ls.sent), by simp, hpost, ?_, by intro l h; cases h⟩
     intro x hx; exact soapOnly_sub hx
   | none =>
     by_cases hnd : ls.notDone.isEmpty = true
-    · exact ⟨ls, .sent ls.sent, by simp [hnd], hpost, fun x hx => hx⟩
-    · refine ⟨ls, .error .logout (soapOnly ls.sent), by simp [hnd], hpost, ?_⟩
+    · exact ⟨ls, .sent ls.sent, by simp [hnd], hpost, fun x hx => hx, by intro l h; cases h; rfl⟩
+    · refine ⟨ls, .error .logout (soapOnly ls.sent), by simp [hnd], hpost, ?_, by intro l h; cases h⟩
       intro x hx; exact soapOnly_sub hx
 
 theorem doLogout_last (cfg : Cfg) (st : St) (s : Subj) (cell : Nat) (expire : Option Int) :
@@ -277,6 +277,25 @@ theorem added_of_post {p : Plan} {st' : St} {s : Subj} {o : Nat} {expire : Optio
   · have hstep : rid.step = g.stepNo := by rw [hinv.stepNo]; exact h1
     simp [hstep, hopId, hall _ h2]
 
+theorem sentPending_of_post {out : Out} {st' : St} {s : Subj} {o : Nat} {expire : Option Int} {es nd : List Idp}
+    {P0 : List (ReqId × Rec)} {ls : LoopSt}
+    (hpost : LoopPost cfg st.db st.now st.stepNo s o expire es ⟨P0, nd, []⟩ ls)
+    (hsent : ∀ l, out = .sent l → l = ls.sent) (hpend : st'.pending = ls.pending) :
+    sentPendingOk out (obsOf st') = true := by
+  cases out with
+  | sent l =>
+    have hl := hsent l rfl
+    subst hl
+    simp only [sentPendingOk, obsOf]
+    rw [List.all_eq_true]
+    intro r hr
+    rcases hpost.pend r hr with h | h | h
+    · cases h
+    · simp [h]
+    · have : r.id ∈ Dict.keys st'.pending := by rw [hpend]; exact h
+      simp [this]
+  | _ => rfl
+
 theorem heapGet_below {h : List (Nat × List Idp)} {n c : Nat} {l : List Idp} (hc : c < n) :
     heapGet (Dict.set n l h) c = heapGet h c :=
   heapGet_set_other _ _ (by omega)
@@ -301,7 +320,7 @@ theorem ok_loop {op : Op} {P0 : List (ReqId × Rec)} {o : Nat} {es : List Idp} {
     (hnotslo : ∀ a b c d, op ≠ .slo a b c d) (hnow : nowAfter st op = st.now)
     (hread : ∀ out, readOk g (readCheck op) op out = true)
     (hgone : ∀ rid, p.consumed = some rid → Dict.get? rid P0 = none ∧ rid.step < st.stepNo) : StepOk cfg st g op := by
-  obtain ⟨ls, out, hdo, hpost, hem⟩ := doLogout_live (cfg := cfg)
+  obtain ⟨ls, out, hdo, hpost, hem, hsent⟩ := doLogout_live (cfg := cfg)
     (st := { now := st.now, db := st.db, pending := P0, heap := Dict.set o es st.heap, last := st.last, stepNo := st.stepNo })
     (s := s) (cell := o) (expire := expire) hdl
   simp only [heapGet_set_self] at hpost
@@ -311,7 +330,7 @@ theorem ok_loop {op : Op} {P0 : List (ReqId × Rec)} {o : Nat} {es : List Idp} {
     (hends := fun s0 _ he => absurd he hexp)
     (hrem := removed_of_post (st := st) hpost hP0k rfl)
     (hadd := added_of_post (st := st) hinv hpost hP0 rfl (by simp [hopId]) (fun _ h => by rw [hall]; exact h))
-    (hgone := ?_)
+    (hgone := ?_) (hsp := sentPending_of_post (st := st) hpost hsent rfl)
     (hreq := request_of_post (st := st) hinv hpost hem hsoi (fun _ h => by rw [hall]; exact h))
     (hstat := statusOk_not_slo hnotslo) (hnow := hnow.symm) (hlast := rfl) (hstep := rfl)
     (hpend := ?_)
@@ -347,7 +366,7 @@ theorem ok_logout (hinv : Inv st g) (s : Subj) (expire : Option Int) : StepOk cf
         (hread := rfl)
         (hshape := Or.inr (Or.inl ⟨s, rfl, Or.inl rfl, rfl⟩))
         (hends := by intro s0 h _; cases h; simp [Dict.mem_keys_del])
-        (hrem := removed_same rfl) (hadd := added_same rfl) (hgone := gone_none rfl) (hreq := request_nil rfl)
+        (hrem := removed_same rfl) (hadd := added_same rfl) (hgone := gone_none rfl) (hsp := rfl) (hreq := request_nil rfl)
         (hstat := rfl) (hnow := rfl) (hlast := rfl) (hstep := rfl)
         (hpend := pendInv_sub hinv rfl (fun _ _ h => h) (fun c hc => heapGet_below hc) rfl)
     | false =>
@@ -521,7 +540,7 @@ theorem ok_resp (hinv : Inv st g) (sel : Sel) (issuer : Option Idp) : StepOk cfg
             (hshape := Or.inr (Or.inl ⟨rec.subj, hsoi, hexp, rfl⟩))
             (hends := by intro s0 h _; rw [hsoi] at h; cases h; simp [Dict.mem_keys_del])
             (hrem := removed_del hcons rfl) (hadd := added_del rfl)
-            (hgone := gone_of_not_mem hcons (Dict.get?_del_self _ _)) (hreq := request_nil rfl)
+            (hgone := gone_of_not_mem hcons (Dict.get?_del_self _ _)) (hsp := rfl) (hreq := request_nil rfl)
             (hstat := statusOk_resp) (hnow := rfl) (hlast := hlastA.symm) (hstep := rfl)
             (hpend := hpendInv _ rfl rfl rfl)
         | none =>
@@ -531,7 +550,7 @@ theorem ok_resp (hinv : Inv st g) (sel : Sel) (issuer : Option Idp) : StepOk cfg
             (hshape := Or.inl rfl)
             (hends := by intro s0 h _; rw [hsoi] at h; cases h; exact hnk)
             (hrem := removed_del hcons rfl) (hadd := added_del rfl)
-            (hgone := gone_of_not_mem hcons (Dict.get?_del_self _ _)) (hreq := request_nil rfl)
+            (hgone := gone_of_not_mem hcons (Dict.get?_del_self _ _)) (hsp := rfl) (hreq := request_nil rfl)
             (hstat := statusOk_resp) (hnow := rfl) (hlast := hlastA.symm) (hstep := rfl)
             (hpend := hpendInv _ rfl rfl rfl)
       · by_cases hxL : x ∈ heapGet st.heap rec.cell
@@ -589,7 +608,7 @@ theorem ok_resp (hinv : Inv st g) (sel : Sel) (issuer : Option Idp) : StepOk cfg
                 (hshape := Or.inr (Or.inl ⟨rec.subj, by rw [h5], Or.inl rfl, rfl⟩))
                 (hends := by intro s0 h _; simp only [h5] at h; cases h; simp [Dict.mem_keys_del])
                 (hrem := removed_del rfl rfl) (hadd := added_del rfl)
-                (hgone := gone_of_not_mem rfl (Dict.get?_del_self _ _)) (hreq := request_nil rfl)
+                (hgone := gone_of_not_mem rfl (Dict.get?_del_self _ _)) (hsp := rfl) (hreq := request_nil rfl)
                 (hstat := statusOk_resp) (hnow := rfl) (hlast := hlastA.symm) (hstep := rfl)
                 (hpend := hpi _ rfl (by rw [hrem7]) rfl)
             | none =>
@@ -605,7 +624,7 @@ theorem ok_resp (hinv : Inv st g) (sel : Sel) (issuer : Option Idp) : StepOk cfg
                 (hshape := Or.inl rfl)
                 (hends := by intro s0 h _; simp only [h5] at h; cases h; exact hnk)
                 (hrem := removed_del rfl rfl) (hadd := added_del rfl)
-                (hgone := gone_of_not_mem rfl (Dict.get?_del_self _ _)) (hreq := request_nil rfl)
+                (hgone := gone_of_not_mem rfl (Dict.get?_del_self _ _)) (hsp := rfl) (hreq := request_nil rfl)
                 (hstat := statusOk_resp) (hnow := rfl) (hlast := hlastA.symm) (hstep := rfl)
                 (hpend := hpi _ rfl (by rw [hrem7]) rfl)
           | false =>
@@ -640,7 +659,7 @@ theorem ok_resp (hinv : Inv st g) (sel : Sel) (issuer : Option Idp) : StepOk cfg
             (by rw [hplan]; simp only [hxr, if_false]) (hread := rfl) (hshape := Or.inl rfl)
             (hends := by intro s0 _ h; cases h)
             (hrem := removed_del rfl rfl) (hadd := added_del rfl)
-                (hgone := gone_of_not_mem rfl (Dict.get?_del_self _ _)) (hreq := request_nil rfl)
+                (hgone := gone_of_not_mem rfl (Dict.get?_del_self _ _)) (hsp := rfl) (hreq := request_nil rfl)
             (hstat := statusOk_resp) (hnow := rfl) (hlast := hlastA.symm) (hstep := rfl)
             (hpend := pendInv_sub hinv rfl hsubP (fun _ _ => rfl) rfl)
 
